@@ -50,6 +50,8 @@ type line struct {
 	Tallies    map[string]map[string]int64 `json:"tallies"`
 	Pairs      []string                    `json:"switch_pairs"`
 	Race       bool                        `json:"race_build"`
+	Executed   []int                       `json:"points_executed"`
+	Preempted  []int                       `json:"points_preempted"`
 }
 
 type replayFile struct {
@@ -133,12 +135,15 @@ type agg struct {
 	tallies    map[string]map[string]int64
 	pairs      map[string]struct{}
 	samples    []map[string]any
+	executed   map[int]bool
+	preempted  map[int]bool
 	cfgSamples []string
 }
 
 func newAgg() *agg {
 	return &agg{runs: map[string]int64{}, allSigs: map[uint64]struct{}{}, ntSigs: map[uint64]struct{}{},
-		counters: map[string]int64{}, probes: map[string]int64{}, tallies: map[string]map[string]int64{}, pairs: map[string]struct{}{}}
+		counters: map[string]int64{}, probes: map[string]int64{}, tallies: map[string]map[string]int64{}, pairs: map[string]struct{}{},
+		executed: map[int]bool{}, preempted: map[int]bool{}}
 }
 
 func (a *agg) add(lane string, wo workerOut) {
@@ -186,6 +191,12 @@ func (a *agg) add(lane string, wo workerOut) {
 			}
 			for _, p := range l.Pairs {
 				a.pairs[p] = struct{}{}
+			}
+			for _, id := range l.Executed {
+				a.executed[id] = true
+			}
+			for _, id := range l.Preempted {
+				a.preempted[id] = true
 			}
 		}
 	}
